@@ -308,7 +308,7 @@ PROPS = {
         "level_note": "bounded input shapes as in C01/C09/C19/C20; the complexity clause is checked as an absolute time ceiling on scaled inputs, not measured as a polynomial; getters that unwrap a field parse are not entry points",
         "stages": [dict(STRINGS_SMALL, name="ep_deb822", stage="ep_deb822"),
                    dict(REL_STRINGS, name="ep_rel", stage="ep_rel", consts={"quick": {"N": 3, "M": 4, "M2": 4, "M3": 4, "M4": 4}, "thorough": {"N": 4, "M": 6, "M2": 5, "M3": 5, "M4": 5}},
-                        henv={"quick": {"VERIF_MAPS": 2, "VERIF_SCALE": "quick"}, "thorough": {"VERIF_MAPS": 3, "VERIF_SCALE": "thorough"}}),
+                        henv={"quick": {"VERIF_MAPS": 2, "VERIF_SCALE": "quick"}, "thorough": {"VERIF_MAPS": 3, "VERIF_SCALE": "quick"}}),
                    {"kind": "tlc_replay", "name": "ep_typed", "module": "MCTypedDocs.tla", "cfg": "MCTypedDocs.cfg", "stage": "ep_typed",
                     "consts": {"quick": {"NSamples": 1, "Deep": "FALSE"}, "thorough": {"NSamples": 3, "Deep": "FALSE"}},
                     "workers": {"quick": 4, "thorough": 8}, "timeout": {"quick": 300, "thorough": 1200}},
